@@ -7,9 +7,9 @@
 #include <cmath>
 typedef double realtype;
 typedef long sunindextype;
-struct _N_VectorShim { realtype *data; sunindextype len; bool own; };
+struct _N_VectorShim { realtype *data; sunindextype len; bool own; void *content = nullptr; };
 typedef _N_VectorShim *N_Vector;
-struct _SUNMatrixShim { realtype *data; sunindextype rows, cols, nnz; sunindextype *rowptrs; sunindextype *colvals; };
+struct _SUNMatrixShim { realtype *data; sunindextype rows, cols, nnz; sunindextype *rowptrs; sunindextype *colvals; sunindextype nblocks = 1; };
 typedef _SUNMatrixShim *SUNMatrix;
 typedef void *SUNLinearSolver;
 typedef void *SUNContext;
